@@ -157,6 +157,61 @@ def check_parallel_fields(ctx, F, c):
     return len(fields)
 
 
+def check_arm_derived_fields(ctx, F, c):
+    """R8.6: a bandit field (other than the arm-keyed dictionaries of R8.1) whose stored value was computed from the
+    entries of an arm-keyed dictionary or from the number of arms - a cache - has one entry per arm baked in. It
+    must be rewritten (re-derived or invalidated) by add_arm and remove_arm, or results computed from it range over
+    the old arms."""
+    w = F.world(c)
+    eng = w.eng
+    cand = {}
+    for label in F.entry_labels(c):
+        root = F.trace(c, label)
+        F.focus(c, root)
+        armdicts = set()
+        per_arm = set()
+        for o in eng.heap.objs.values():
+            if o.region != "bandit" or o.cls not in ctx.prog.classes:
+                continue
+            for fname, fv in o.fields.items():
+                for r in fv.refs:
+                    d = eng.heap.objs.get(r)
+                    if d is not None and d.cls == "dict" and d.keys is not None and "label" in d.keys.tags:
+                        armdicts.add((o.oid, fname))
+                        if d.elem is not None:
+                            per_arm.update(d.elem.refs)     # the per-arm objects themselves (models, trees)
+        mab = eng.obj(w.mab_oid)
+        cards = {("card", r) for r in mab.fields["arms"].refs}
+        for ev, anc in walk(root):
+            if ev.kind != "store" or not ev.a["step"].startswith(".") or ev.a.get("value") is None:
+                continue
+            v = ev.a["value"]
+            for t in ev.a["targets"]:
+                if t.region != "bandit" or t.sub or t.field is None or t.ocls == "MAB" or \
+                        (t.oid, t.field) in armdicts or t.field in ("arms", "rng") or t.oid in per_arm:
+                    continue
+                if v.refs and any(eng.obj(r).cls in ctx.prog.classes or (eng.obj(r).cls or "").startswith("ext:")
+                                  for r in v.refs if r in eng.heap.objs):
+                    continue            # objects (policies, estimators) are tracked by R8.1 through their own fields
+                from_dict = {l for l in dep_locations(eng, v.deps) if l in armdicts}
+                from_card = bool(cards & set(v.deps))
+                if from_dict or from_card:
+                    cand.setdefault((t.oid, t.ocls, t.field), (ev, label, sorted(x[1] for x in from_dict)))
+    n = 0
+    for (oid, ocls, fld), (ev, label0, srcs) in sorted(cand.items(), key=str):
+        for label in ("add_arm", "remove_arm"):
+            root = F.trace(c, label)
+            F.focus(c, root)
+            written = any(sev.kind == "store" and any(t.oid == oid and t.field == fld for t in sev.a["targets"])
+                          for sev, _ in walk(root))
+            n += 1
+            ctx.check(written, "R8.6", "%s.%s (computed from per-arm state) is refreshed by %s" % (ocls, fld, label),
+                      ev.node, ev.fn, "the value stored by %s is computed from %s, one entry per arm, but %s neither "
+                      "re-derives nor invalidates it: results built from it range over the old arms [%s]" %
+                      (label0, srcs or "the number of arms", label, c.name))
+    return n
+
+
 def check_one_arm_list(ctx, F, c):
     w = F.world(c)
     heap = w.skeleton
@@ -424,10 +479,12 @@ def check(ctx):
     ctx.rule("R8.3", "one shared arm list, mutated only by the facade")
     ctx.rule("R8.4", "outputs are fresh dictionaries keyed by the arms / arm labels")
     ctx.rule("R8.5", "result cardinality idioms; predictions[index] assigned on every path")
+    ctx.rule("R8.6", "bandit fields computed from per-arm state (caches) are refreshed by add_arm and remove_arm")
     nk = npar = nobj = nout = 0
     for c in F.configs():
         nk += check_bookkeeping(ctx, F, c)
         npar += check_parallel_fields(ctx, F, c)
+        check_arm_derived_fields(ctx, F, c)
         nobj += check_one_arm_list(ctx, F, c)
         nout += check_outputs(ctx, F, c)
     check_unwrapping(ctx)
